@@ -107,7 +107,14 @@ type result struct {
 }
 
 func execute(run func(db *gorm.DB) *gorm.DB, failHook int, skipHooks bool) result {
-	restore()
+	return executeOn(run, failHook, skipHooks, true)
+}
+
+// executeOn: fresh = false keeps the database as the previous run left it (second use of the records)
+func executeOn(run func(db *gorm.DB) *gorm.DB, failHook int, skipHooks bool, fresh bool) result {
+	if fresh {
+		restore()
+	}
 	txm.ResetHooks()
 	txm.H.FailAt = failHook
 	base := H.Rec.Mark()
@@ -504,6 +511,46 @@ func run(c *core.Ctx) {
 		c.Violation("cold-first-use/"+kind, map[string]interface{}{"op": op.Desc, "problems": []string{fmt.Sprintf("as the first statement of a fresh handle the operation fired [%s] (error %v), on a handle that had used the models before [%s]", cs, cerr, txm.LogShape(ff.log))}})
 	}
 	c.Inc("cold_first_use_runs")
+	// the same records once more: a Delete of records whose rows are gone affects no row, its hooks
+	// still fire once per in-memory record
+	if kind == "Delete" {
+		ff2 := execute(op.Run, 0, false)
+		again := executeOn(op.Run, 0, false, false)
+		if again.err != nil || txm.LogShape(again.log) != txm.LogShape(ff2.log) {
+			c.Violation("second-delete/"+kind, map[string]interface{}{"op": op.Desc, "problems": []string{fmt.Sprintf("deleting the same in-memory records a second time (their rows are gone) fired [%s] (error %v), the first delete fired [%s]", txm.LogShape(again.log), again.err, txm.LogShape(ff2.log))}})
+		}
+		c.Inc("second_delete_runs")
+	}
+	// Save of a record that carries a key without a row: one Save, every phase once
+	if kind == "SaveNew" {
+		u := &txm.User{ID: 900 + int64(c.Case%50), Name: fmt.Sprintf("preset_%d", c.Case), Age: 30}
+		rs := execute(func(db *gorm.DB) *gorm.DB { return db.Save(u) }, 0, false)
+		cnt := map[string]int{}
+		for _, e := range rs.log {
+			if e.Type == "User" {
+				cnt[e.Hook]++
+			}
+		}
+		var p []string
+		if rs.err != nil {
+			p = append(p, "error: "+rs.err.Error())
+		}
+		if cnt["BeforeSave"] != 1 || cnt["AfterSave"] != 1 {
+			p = append(p, fmt.Sprintf("BeforeSave fired %d times, AfterSave %d times for one Save of one record", cnt["BeforeSave"], cnt["AfterSave"]))
+		}
+		if cnt["BeforeCreate"]+cnt["BeforeUpdate"] != 1 || cnt["AfterCreate"]+cnt["AfterUpdate"] != 1 {
+			p = append(p, fmt.Sprintf("create/update phase hooks: BeforeCreate %d BeforeUpdate %d AfterCreate %d AfterUpdate %d (one before and one after expected)", cnt["BeforeCreate"], cnt["BeforeUpdate"], cnt["AfterCreate"], cnt["AfterUpdate"]))
+		}
+		if rows, _ := vdb.RowMaps(H.SQL, "SELECT name, stamp FROM users WHERE id = ?", u.ID); len(rows) != 1 {
+			p = append(p, fmt.Sprintf("%d rows stored for the saved key", len(rows)))
+		} else if st, _ := rows[0]["stamp"].(string); st != "bs:"+u.Name {
+			p = append(p, fmt.Sprintf("value assigned in BeforeSave not stored (stamp=%q)", st))
+		}
+		if len(p) > 0 {
+			c.Violation("save-preset-key-without-row", map[string]interface{}{"op": "db.Save(&User{ID: preset, ...}) where no row has that key", "problems": p, "hooks": txm.LogString(rs.log)})
+		}
+		c.Inc("save_preset_key_runs")
+	}
 	// SkipHooks session
 	rs := execute(op.Run, 0, true)
 	c.Inc("skiphooks_runs")
@@ -533,7 +580,7 @@ func run(c *core.Ctx) {
 var Engine = &core.Engine{
 	ID:    "C13",
 	Level: "fault_enumeration",
-	Rule: "every operation also runs as the first statement of a fresh handle (cold schema cache, raw DDL) and must fire the same hooks; after-hooks address the current record through the statement (SetColumn / Changed); the 16 write operation kinds of C05 over seeded record graphs (struct, value slice, pointer slice, batches; children with their own hooks) plus 7 read kinds (Find, First, Take, Preload, condition, map destination, FindInBatches); each operation is run fault-free (sequence, exactly-once, statement position, slice order, transaction identity of hook writes, stored before-hook values), in a SkipHooks session, and once per hook invocation index with that invocation failing; " +
+	Rule: "a Delete is repeated on the same in-memory records (rows gone: same hooks), a Save of a record with a preset key and no row must run every phase once; every operation also runs as the first statement of a fresh handle (cold schema cache, raw DDL) and must fire the same hooks; after-hooks address the current record through the statement (SetColumn / Changed); the 16 write operation kinds of C05 over seeded record graphs (struct, value slice, pointer slice, batches; children with their own hooks) plus 7 read kinds (Find, First, Take, Preload, condition, map destination, FindInBatches); each operation is run fault-free (sequence, exactly-once, statement position, slice order, transaction identity of hook writes, stored before-hook values), in a SkipHooks session, and once per hook invocation index with that invocation failing; " +
 		"distinct = (kind, hooks fired, records) resp. (kind, failing hook, type, first/last); non-trivial = at least one hook fired",
 	Assumptions: []string{
 		"records are identified by the address of the in-memory struct the hook receives",
